@@ -206,13 +206,13 @@ _TIMED_R = ["timed-recv-close", "timed-recv-disc", "timed-recv-peer", "timed-rec
 _REPOLL = ["repoll-recv-close", "repoll-recv-disc", "repoll-recv-peer", "repoll-send-close", "repoll-send-peer"]
 _FDROP = ["drop-recv-peer", "drop-send-peer", "drop-recv-close", "drop-send-close"]
 WINDOWS = {
-    "C01": _TIMED_S + ["drop-send-peer", "drop-recv-peer", "repoll-recv-close"],
+    "C01": _TIMED_S + ["drop-send-peer", "drop-recv-peer", "repoll-recv-close", "stream-rewait2"],
     "C05": _TIMED_S + ["drop-send-peer", "drop-send-close", "drop-recv-peer"],
-    "C13": _TIMED_S + _TIMED_R,
-    "C10": ["timed-send-close", "timed-recv-close", "slow-close", "repoll-recv-close", "repoll-send-close", "drop-recv-close", "drop-send-close", "park-close", "two-close"],
-    "C11": ["timed-send-disc", "timed-sendo-disc", "timed-recv-disc", "slow-disc", "repoll-recv-disc", "park-disc", "park-disc-r", "park-disc-a", "park-disc-ra", "timed-send-disc-a"],
-    "C04": ["repoll-recv-close", "repoll-recv-disc", "repoll-recv-peer", "timed-recv-peer", "timed-recv-close", "drop-recv-peer"],
-    "C16": _REPOLL + ["stream-rewait"],
+    "C13": _TIMED_S + _TIMED_R + ["timed-recv-disc-long", "timed-send-disc-long", "timed-recv-close-long"],
+    "C10": ["timed-recv-close-long", "timed-send-close", "timed-recv-close", "slow-close", "repoll-recv-close", "repoll-send-close", "drop-recv-close", "drop-send-close", "park-close", "two-close"],
+    "C11": ["timed-send-disc", "timed-sendo-disc", "timed-recv-disc", "slow-disc", "repoll-recv-disc", "park-disc", "park-disc-r", "park-disc-a", "park-disc-ra", "timed-send-disc-a", "timed-recv-disc-long", "timed-send-disc-long"],
+    "C04": ["repoll-recv-close", "repoll-recv-disc", "repoll-recv-peer", "timed-recv-peer", "timed-recv-close", "drop-recv-peer", "stream-rewait", "stream-rewait2"],
+    "C16": _REPOLL + ["stream-rewait", "stream-rewait2"],
     "C15": _FDROP + ["repoll-recv-peer"],
     "C07": _FDROP + ["repoll-recv-peer", "repoll-send-peer", "timed-send-peer", "timed-recv-peer", "park-close", "park-disc"],
     "C06": ["park-close", "park-disc", "park-disc-r", "park-disc-a", "park-disc-ra", "repoll-recv-peer", "repoll-send-peer", "timed-send-peer", "timed-recv-peer", "slow-close", "stream-rewait"],
@@ -644,8 +644,8 @@ EXTRA_FILES = {
     "C06": ["Kanal/Props/C06Fair.lean", "Kanal/Props/C06Chan.lean", "Kanal/Props/C06Async.lean",    # eventual completion under weak fairness
             "Kanal/TieProto.lean", "Kanal/ProtoSim.lean", "Kanal/TiePaths.lean",
             "Kanal/Own.lean", "Kanal/TieDiscipline.lean"],                   # every waiter a call takes out of the wait list gets its one final store before the call returns
-    "C18": ["Kanal/Bridge.lean", "Kanal/Bridge2.lean"],                                                                  # Fine read sequentially = Spec.step
-    "C03": ["Kanal/Sections.lean", "Kanal/SpecSections.lean"],
+    "C18": ["Kanal/Bridge.lean", "Kanal/Bridge2.lean", "Kanal/Refine/Congr.lean", "Kanal/Refine/Step.lean", "Kanal/Refine/Exec.lean", "Kanal/Refine/Raw.lean", "Kanal/Refine/Mach.lean"],                                                                  # Fine read sequentially = Spec.step
+    "C03": ["Kanal/Sections.lean", "Kanal/SpecSections.lean", "Kanal/Refine/Exec.lean", "Kanal/Refine/Mach.lean"],   # + segment-atomic executions of the code are executions of Spec
     # translated signal.rs / mutex.rs / spin_cond conform to SigM / MutexM (TieProto), and conformance is adequate (ProtoSim)
     "C07": ["Kanal/TieProto.lean", "Kanal/ProtoSim.lean", "Kanal/TiePaths.lean", "Kanal/Props/C07Pin.lean",   # + the futures are !Unpin
             "Kanal/Own.lean", "Kanal/NoDangle.lean", "Kanal/TieDiscipline.lean", "Kanal/WakerReg.lean"],     # one peer per popped signal, exactly once; no frame dies while its signal can be touched
